@@ -465,31 +465,52 @@ func ruleQueueConfig(c *Check, a *Analysis, rule string) {
 			if len(call.Call.Args) < 2 {
 				continue
 			}
-			opt := p.canon(call.Call.Args[1])
 			bad := ""
-			if al, ok := opt.(*ssa.Alloc); ok {
-				if al.Referrers() != nil {
-					for _, r := range *al.Referrers() {
-						fa, ok := r.(*ssa.FieldAddr)
-						if !ok || fa.Referrers() == nil {
-							continue
+			seen := map[ssa.Value]bool{}
+			var look func(v ssa.Value, d int)
+			look = func(v ssa.Value, d int) {
+				if v == nil || d == 0 || seen[v] {
+					return
+				}
+				seen[v] = true
+				for _, o := range p.origins(v) {
+					o = p.canon(o)
+					switch x := o.(type) {
+					case *ssa.Alloc:
+						if w := nonThresholdField(x); w != "" {
+							bad = w
 						}
-						name := ""
-						if pt, ok := al.Type().Underlying().(*types.Pointer); ok {
-							if stt, ok := pt.Elem().Underlying().(*types.Struct); ok && fa.Field < stt.NumFields() {
-								name = stt.Field(fa.Field).Name()
+					case *ssa.Const:
+					case *ssa.UnOp:
+						// a package-level options value: what is stored into it anywhere
+						if g, ok := x.X.(*ssa.Global); ok && x.Op == token.MUL {
+							n := 0
+							for _, f := range p.SSA.Package(g.Pkg.Pkg).Members {
+								fn, ok := f.(*ssa.Function)
+								if !ok {
+									continue
+								}
+								for _, cl := range withClosuresLocal(fn) {
+									eachInstrLocal(cl, func(in ssa.Instruction) {
+										if st, ok := in.(*ssa.Store); ok && st.Addr == ssa.Value(g) {
+											n++
+											look(st.Val, d-1)
+										}
+									})
+								}
 							}
-						}
-						for _, u := range *fa.Referrers() {
-							if st, ok := u.(*ssa.Store); ok && name != "Threshold" && !isZeroValue(st.Val) {
-								bad = name
+							if n == 0 {
+								bad = "options from " + g.Name() + " (never assigned)"
 							}
+						} else {
+							bad = "options built elsewhere (" + describe(o) + ")"
 						}
+					default:
+						bad = "options built elsewhere (" + describe(o) + ")"
 					}
 				}
-			} else if !nilConst(opt) {
-				bad = "options built elsewhere"
 			}
+			look(call.Call.Args[1], 4)
 			c.Ob(rule, sc.key(fn, "scheduler.Options{Threshold} only"), p.InstrPos(call), bad == "", ifs(bad != "", "this queue is configured with "+bad+": outside the configuration for which one worker means first-in first-out"))
 		}
 	}
@@ -542,4 +563,30 @@ func callsInLocal(fn *ssa.Function, name string) []ssa.CallInstruction {
 		}
 	})
 	return out
+}
+
+// nonThresholdField names a field other than Threshold that is given a non-zero value in the options literal al.
+func nonThresholdField(al *ssa.Alloc) string {
+	bad := ""
+	if al.Referrers() == nil {
+		return ""
+	}
+	for _, r := range *al.Referrers() {
+		fa, ok := r.(*ssa.FieldAddr)
+		if !ok || fa.Referrers() == nil {
+			continue
+		}
+		name := ""
+		if pt, ok := al.Type().Underlying().(*types.Pointer); ok {
+			if stt, ok := pt.Elem().Underlying().(*types.Struct); ok && fa.Field < stt.NumFields() {
+				name = stt.Field(fa.Field).Name()
+			}
+		}
+		for _, u := range *fa.Referrers() {
+			if st, ok := u.(*ssa.Store); ok && name != "Threshold" && !isZeroValue(st.Val) {
+				bad = name
+			}
+		}
+	}
+	return bad
 }
